@@ -340,6 +340,9 @@ def tie_check(pid: str, thorough: bool = False):
                         okc += 1
                 okc += len(re.findall(r"' does not depend on any axioms", o))
                 out["(source-level corollaries)"] = "proved" if okc == len(ns) and rc == 0 else f"lost: {okc}/{len(ns)} corollaries pass the audit"
+                if out["(source-level corollaries)"] == "proved":
+                    rc2, _ = _run(["lake", "env", "leanchecker", "Skc.Tie.Source"], timeout=3000)
+                    out["(source-level corollaries, leanchecker)"] = "ok" if rc2 == 0 else "lost: leanchecker rejects Skc.Tie.Source"
     return out
 
 
